@@ -44,6 +44,19 @@ func fixedBytes(items []Item) (n int, loops []Item) {
 
 func runC12(c *Ctx) {
 	w := c.W
+	defer func() {
+		ruleDecoderBounds(c, "C12.4")
+		c04FlushOrder(c, "C12.5")
+		sub := NewCtx("C12", c.W)
+		runC15(sub)
+		c.Rule("C12.6", sub.Rules["C15.1"])
+		for _, o := range sub.Obs {
+			if o.Rule == "C15.1" {
+				o.Rule = "C12.6"
+				c.Obs = append(c.Obs, o)
+			}
+		}
+	}()
 	c.Rule("C12.1", "encodeLeaf/decodeLeaf and encodeInternal/decodeInternal have equal wire grammars, item by item: same widths, same struct field on both sides, same nesting, including the spliced cell area and the free-space pad")
 	c.Rule("C12.2", "arithmetic over the EXTRACTED grammar and the declared constants: header bytes equal the declared header sizes; bytes per cell equal offsetElemSize + the declared cell size (with maxValueSize as the value bound); header + maxCells*cell <= pageSize; the counts and free size fit their wire widths; isFull compares the occupancy against exactly these capacity constants")
 	c.Rule("C12.3", "fetch dispatches on the first byte of the page with exactly the kind constants the two encoders write first and the two decoders demand, and sets isLeaf accordingly")
